@@ -143,11 +143,11 @@ Proof.
 Qed.
 
 (* whole all-fibre calls = specification on the expanded requests *)
-Theorem readspec_model_all_eq_S sv pl r2 r1 plate mjd reqs :
+Theorem readspec_model_all_eq_S sv pl r2 r1 plate mjd znum reqs :
   wf_survey sv = true ->
   request_vectors_all sv pl r2 r1 plate mjd = Some reqs ->
   (forall r, In r reqs -> valid_req r) ->
-  readspec_model_all sv pl r2 r1 plate mjd = readspec_S sv reqs None.
+  readspec_model_all sv pl r2 r1 plate mjd znum = readspec_S sv reqs znum.
 Proof.
   intros Hwf Hreq Hv. unfold readspec_model_all, readspec_S. rewrite Hreq.
   apply sequenceM_map_ext. intros w _. apply readspec_core_eq_spec; [exact Hv|].
